@@ -35,6 +35,7 @@ enum Op {
     Get(Vec<u8>),
     Del(Vec<u8>),
     Merge,
+    CanMerge,
     Sleep(u64),
 }
 
@@ -45,6 +46,7 @@ fn parse_op(s: &str) -> Option<Op> {
         "get" => Some(Op::Get(unhex(it.next()?))),
         "del" => Some(Op::Del(unhex(it.next()?))),
         "merge" => Some(Op::Merge),
+        "canmerge" => Some(Op::CanMerge),
         "sleep" => Some(Op::Sleep(it.next()?.parse().ok()?)),
         _ => None,
     }
@@ -56,6 +58,7 @@ fn show_op(o: &Op) -> String {
         Op::Get(k) => format!("get {}", hex(k)),
         Op::Del(k) => format!("del {}", hex(k)),
         Op::Merge => "merge".into(),
+        Op::CanMerge => "canmerge".into(),
         Op::Sleep(ms) => format!("sleep {}", ms),
     }
 }
@@ -79,6 +82,7 @@ fn exec(h: &Handle, o: &Op) -> String {
             Ok(()) => "ok".to_string(),
             Err(e) => format!("err:{}", e).replace(' ', "_"),
         },
+        Op::CanMerge => h.verif_can_merge().to_string(),
         Op::Sleep(ms) => {
             std::thread::sleep(Duration::from_millis(*ms));
             "ok".to_string()
@@ -181,6 +185,10 @@ fn run_case(c: &CaseCfg, lines: &[String], scratch: &PathBuf) {
                     threads.push(("merger".into(), 0, ops));
                 }
             }
+            "prober" => {
+                let n: usize = rest.trim().parse().unwrap();
+                threads.push(("merger-prober".into(), 0, std::iter::repeat(Op::CanMerge).take(n).collect()));
+            }
             "timeout" => timeout_ms = rest.trim().parse().unwrap(),
             _ => {}
         }
@@ -205,7 +213,7 @@ fn run_case(c: &CaseCfg, lines: &[String], scratch: &PathBuf) {
     let finished = Arc::new(AtomicUsize::new(0));
     let stop_merger = Arc::new(AtomicBool::new(false));
     let nthreads = threads.len();
-    let nworkers = threads.iter().filter(|t| t.0 != "merger").count();
+    let nworkers = threads.iter().filter(|t| !t.0.starts_with("merger")).count();
     let workers_done = Arc::new(AtomicUsize::new(0));
     let mut joins = Vec::new();
     for (name, delay, ops) in threads {
@@ -214,7 +222,7 @@ fn run_case(c: &CaseCfg, lines: &[String], scratch: &PathBuf) {
         let finished = finished.clone();
         let stop_merger = stop_merger.clone();
         let workers_done = workers_done.clone();
-        let is_merger = name == "merger";
+        let is_merger = name.starts_with("merger");
         let j = std::thread::Builder::new()
             .name(name.clone())
             .spawn(move || {
@@ -226,7 +234,7 @@ fn run_case(c: &CaseCfg, lines: &[String], scratch: &PathBuf) {
                     let a = t0.elapsed().as_nanos();
                     let r = exec(&h, o);
                     let b = t0.elapsed().as_nanos();
-                    if !matches!(o, Op::Sleep(_)) {
+                    if !matches!(o, Op::Sleep(_) | Op::CanMerge) {
                         out.lock().unwrap().push(format!("H {} {} {} = {} @{} {}", name, i, show_op(o), r, a, b));
                     }
                     if r == "panic" {
